@@ -198,6 +198,34 @@ pub fn depth1() -> Vec<Ty> {
     for w in wide {
         out.insert(w);
     }
+    // very wide and very deep (but not exponentially nested) types: size is no reason for a type
+    // not to survive printing
+    let atoms4 = [i.clone(), st.clone(), f.clone(), b.clone()];
+    let fn_n = |n: usize| Ty::Fun((0..n).map(|k| atoms4[k % 4].clone()).collect(), Box::new(atoms4[n % 4].clone()));
+    out.insert(Ty::Tup((0..40).map(|k| atoms4[k % 4].clone()).collect()));
+    out.insert(Ty::Tup((0..12).map(|k| if k % 3 == 0 { Ty::Arr(Box::new(Ty::Union(vec![i.clone(), st.clone()]))) } else { fn_n(k % 3) }).collect()));
+    out.insert(Ty::Struct((0..24).map(|k| (format!("f{k:02}"), fn_n(k % 5))).collect()));
+    out.insert(Ty::Struct((0..30).map(|k| (format!("g{k:02}"), atoms4[k % 4].clone())).collect()));
+    out.insert(Ty::Union((0..17).map(|k| Ty::Fun((0..k).map(|j| atoms4[j % 4].clone()).collect(), Box::new(i.clone()))).collect()));
+    out.insert(Ty::Union((0..9).map(|k| Ty::Arr(Box::new(Ty::Tup(vec![atoms4[k % 4].clone(); 2 + k / 4])))).chain([Ty::Void, st.clone()]).collect()));
+    out.insert(fn_n(16));
+    let mut deep_arr = i.clone();
+    let mut deep_mut = st.clone();
+    let mut deep_fn = f.clone();
+    // (the grammar backtracks exponentially on nested brackets - depth 20 of `[` already takes
+    // most of a second to parse - so depth stays moderate; width is what is large here)
+    for _ in 0..7 {
+        deep_arr = Ty::Arr(Box::new(deep_arr));
+    }
+    for _ in 0..6 {
+        deep_mut = Ty::Mut(Box::new(deep_mut));
+    }
+    for _ in 0..8 {
+        deep_fn = Ty::Fun(vec![], Box::new(deep_fn));
+    }
+    out.insert(deep_arr);
+    out.insert(deep_mut);
+    out.insert(deep_fn);
     out.into_iter().collect()
 }
 
